@@ -104,7 +104,7 @@ def run(ctx):
                                    args=rnd.choice(['full', 'full', 'none-if-empty'])))
     # clustered structures with 5-8 states: a kept part that is total on its own and a dropped part whose states have their
     # successors among the dropped ones (the induced relation on V is total only as a whole, not state by state in any order)
-    for _ in range(1500 if q else 30000):
+    for _ in range(1500 if q else 10000):
         a, b = rnd.choice([3, 3, 4, 5]), rnd.choice([2, 2, 3])
         n = a + b
         A, B = list(range(a)), list(range(a, n))
